@@ -29,6 +29,10 @@ is a fixed function of (check, family); the site is ``Msg.Block.Var[ctx]:<where>
      (pod-reencode).
  (e) Block cache: set raw r1, deserialize_var, set raw r2 via Block.__setitem__, deserialize_var again == fresh
      deserialize(r2); same after serialize_var and after assigning Pretty(value) (cache-invalidation).
+     Copy isolation: the value returned by the FIRST / a later / a copy-after-nocopy deserialize_var(make_copy=True) is
+     edited deeply in place and not written back; deserialize_var (copy and no-copy) must still equal the decoding of
+     the unchanged wire value, the pod decoding is unchanged, serialize_var(k, deserialize_var(k)) reproduces the bytes
+     (sites :first-copy / :later-copy / :copy-after-nocopy [+ :pod / :writeback / :raises]); mutable decoded forms only.
      (e2) assignment styles, every integer-typed entry: the raw value is assigned as plain int / member *instance* of
      the entry's own enum or flag class (every member for <= 12 values, else first/middle/last; flags also 0 and an OR
      of two members) / member of an unrelated IntEnum with the same value / Pretty(value): every single assignment
@@ -981,6 +985,96 @@ def unit_history(ent: Entry) -> dict:
 
 
 # ------------------------------------------------------------------------------------------------ (e) block cache
+def _scramble(v: Any, depth: int = 0) -> bool:
+    """Edit a decoded value deeply IN PLACE (every reachable container gets its members replaced / removed); True iff
+    something mutable was reached.  Immutable values (ints, enums, tuples of immutables, str, bytes) cannot be edited."""
+    import dataclasses as _dc
+    import numpy as _np
+    v = sg.unwrap(v)
+    if depth > 8:
+        return False
+    if isinstance(v, _np.ndarray):
+        if v.flags.writeable and v.size:
+            v[...] = 1 - v
+            return True
+        return False
+    if isinstance(v, dict):
+        for k in list(v.keys()):
+            if not _scramble(v[k], depth + 1):
+                v[k] = "scrambled"
+        v["__harness_extra__"] = 1
+        return True
+    if isinstance(v, list):
+        for i in range(len(v)):
+            if not _scramble(v[i], depth + 1):
+                v[i] = "scrambled"
+        v.append("scrambled")
+        return True
+    if _dc.is_dataclass(v) and not isinstance(v, type):
+        for f in _dc.fields(v):
+            if not _scramble(getattr(v, f.name), depth + 1):
+                try:
+                    setattr(v, f.name, "scrambled")
+                except Exception:
+                    pass
+        return True
+    if isinstance(v, dtypes.TaggedUnion):
+        if not _scramble(v.value, depth + 1):
+            v.value = "scrambled"
+        v.tag = "scrambled"
+        return True
+    if isinstance(v, tuple) and not isinstance(v, dtypes.TupleCoord):
+        return any([_scramble(x, depth + 1) for x in v])
+    return False
+
+
+def check_copy_isolation(part: Part, ent: Entry, ctxval, raw: Any, site: str) -> int:
+    """Values handed out by deserialize_var(make_copy=True) are the caller's to edit: after editing the FIRST / a LATER /
+    a copy-after-nocopy result deeply in place (and not writing it back) the block's decoded view must still be the
+    decoding of its unchanged wire value, and serialize_var(k, deserialize_var(k)) must reproduce the bytes."""
+    ser, var = ent.ser, ent.key[2]
+    fresh_blk = make_block(ent, ctxval, raw)
+    try:
+        fresh = force_deep(ser.deserialize(fresh_blk, raw, pod=False))
+        fresh_pod = ser.deserialize(fresh_blk, raw, pod=True)
+        rt_ok = _same_raw(ser.serialize(fresh_blk, fresh), raw)
+    except Exception:
+        return 0
+    if fresh is se.UNSERIALIZABLE:
+        return 0
+    n = 0
+    for variant in ("first-copy", "later-copy", "copy-after-nocopy"):
+        w = {"kind": "cache", "key": list(ent.key), "ctx": ctxval, "raw1": raw, "variant": variant}
+        blk = make_block(ent, ctxval, raw)
+        try:
+            if variant == "later-copy":
+                blk.deserialize_var(var)
+            elif variant == "copy-after-nocopy":
+                blk.deserialize_var(var, make_copy=False)
+            mine = blk.deserialize_var(var)
+            if not _scramble(mine):
+                return n  # immutable decoded form: nothing a caller could edit
+            n += 1
+            for how in ("copy", "nocopy"):
+                got = force_deep(blk.deserialize_var(var, make_copy=(how == "copy")))
+                if not sg.same(got, fresh):
+                    part.violation("cache-invalidation", f"{site}:{variant}", w,
+                                   f"a caller edited the value deserialize_var() gave it (never written back); deserialize_var(make_copy="
+                                   f"{how == 'copy'}) now returns {got!r:.140}, the decoding of the unchanged wire value is {fresh!r:.140}")
+                    break
+            pod_now = ser.deserialize(blk, blk[var], pod=True)
+            if not (pod_now is fresh_pod or sg.same(pod_now, fresh_pod)):
+                part.violation("cache-invalidation", f"{site}:{variant}:pod", w, f"pod decoding changed to {pod_now!r:.140}")
+            if rt_ok:
+                blk.serialize_var(var, blk.deserialize_var(var))
+                if not _same_raw(blk[var], raw):
+                    part.violation("cache-invalidation", f"{site}:{variant}:writeback", w,
+                                   f"serialize_var(k, deserialize_var(k)) after the caller's edit rewrote {_show(raw)} to {_show(blk[var])}")
+        except Exception as e:
+            part.violation("cache-invalidation", f"{site}:{variant}:raises", w, f"{e!r} while re-reading / writing back after the caller's edit")
+    return n
+
+
 def unit_cache(ent: Entry) -> dict:
     part = Part()
     acc = Acc(part)
@@ -1016,6 +1110,12 @@ def unit_cache(ent: Entry) -> dict:
         part.count("cache_skipped_single_value")
         return part.dump()
     site = f"{ent.keystr}{ctx_label(ent, ctx_used)}"
+    for r, _ in cands:
+        k = check_copy_isolation(part, ent, ctx_used, r, site)
+        acc.evals += k
+        if k:
+            acc.nontrivial((ent.idx, "copy-isolation", repr(r)[:40]))
+            part.count("copy_isolation_cases", k)
     for (r1, _), (r2, d2) in zip(cands, cands[1:] + cands[:1]):
         acc.evals += 1
         w = {"kind": "cache", "key": list(ent.key), "ctx": ctx_used, "raw1": r1, "raw2": r2}
